@@ -63,7 +63,25 @@ type c15Func struct {
 	File   int
 }
 
-type c15InitFn struct{ Log, File int }
+// Declarations around the special names init and main (mirror of sdecl in coq/Init/Model.v).
+// A statement of the body of a real init function or of main's main:
+type c15Stmt struct {
+	K      byte // 'c' call of the leaf declaration Decls[Target]; 'l' local function literal; 'v' local variable; 's' struct literal with fields init and main
+	Target int
+	Name   byte // 'i' init, 'm' main: name of the local ('l', 'v')
+	Mark   int  // 'l': printed when the literal runs
+	Called bool // 'l': the literal is called right away
+}
+
+type c15Decl struct {
+	Kind byte // 'F' function, 'M' method (own receiver type k<Own>), 'V' package variable of func type
+	Name byte // 'i' init, 'm' main, 'o' another name (Init<Own>, init<Own>, initFn<Own>)
+	Own  int  // mark printed by the body
+	Ptr  bool // 'M': pointer receiver
+	Alt  int  // 'o': spelling variant
+	File int
+	Body []c15Stmt // only for the functions that run by themselves: func init(), and func main() of package main
+}
 
 type c15Import struct {
 	Pkg   int
@@ -76,7 +94,7 @@ type c15Pkg struct {
 	Imports []c15Import
 	Specs   []c15Spec
 	Funcs   []c15Func
-	Inits   []c15InitFn
+	Decls   []c15Decl // in source order: file order, then position
 	Main    bool
 	NFiles  int
 	Grouped map[int]bool // spec index -> starts a `var ( ... )` group with the next spec
@@ -663,13 +681,197 @@ func (g *c15Gen) body(mode c15Mode, nSpecs int) *c15Pkg {
 	for j := range p.Funcs {
 		p.Funcs[j].File = r.intn(p.NFiles)
 	}
-	for k, file := r.intn(4), 0; k > 0; k-- {
-		if file < p.NFiles-1 && r.chance(50) {
+	return p
+}
+
+// decls adds the init functions, main, and look-alikes of the special names to a package whose Main flag is set.
+func (g *c15Gen) decls(p *c15Pkg) {
+	r := g.r
+	var ds []c15Decl
+	for k := r.intn(5); k > 0; k-- {
+		ds = append(ds, c15Decl{Kind: 'F', Name: 'i', Own: g.log()})
+	}
+	if p.Main {
+		ds = append(ds, c15Decl{Kind: 'F', Name: 'm', Own: 0})
+	}
+	if r.chance(60) {
+		symMain := p.Main // the package scope already has a symbol main
+		for k := 1 + r.intn(3); k > 0; k-- {
+			d := c15Decl{Own: g.log()}
+			switch r.intn(9) {
+			case 0:
+				d.Kind, d.Name = 'M', 'i'
+			case 1:
+				d.Kind, d.Name, d.Ptr = 'M', 'i', true
+			case 2:
+				d.Kind, d.Name, d.Ptr = 'M', 'm', r.bool()
+			case 3:
+				d.Kind, d.Name, d.Ptr = 'M', 'o', r.bool()
+			case 4:
+				d.Kind, d.Name, d.Alt = 'F', 'o', r.intn(2)
+			case 5, 6:
+				if symMain {
+					d.Kind, d.Name = 'M', 'i'
+				} else {
+					d.Kind, d.Name, symMain = 'F', 'm', true
+				}
+			case 7:
+				if symMain {
+					d.Kind, d.Name, d.Ptr = 'M', 'm', true
+				} else {
+					d.Kind, d.Name, symMain = 'V', 'm', true
+				}
+			default:
+				d.Kind, d.Name = 'V', 'o'
+			}
+			ds = append(ds, d)
+		}
+	}
+	for i := len(ds) - 1; i > 0; i-- {
+		j := r.intn(i + 1)
+		ds[i], ds[j] = ds[j], ds[i]
+	}
+	file := 0
+	var leaves []int
+	for i := range ds {
+		if file < p.NFiles-1 && r.chance(40) {
 			file++
 		}
-		p.Inits = append(p.Inits, c15InitFn{Log: g.log(), File: file})
+		ds[i].File = file
+		if !ds[i].runsByItself(p.Main) {
+			leaves = append(leaves, i)
+		}
 	}
-	return p
+	for i := range ds {
+		d := &ds[i]
+		if !d.runsByItself(p.Main) {
+			continue
+		}
+		if len(leaves) > 0 && r.chance(45) {
+			for k := 1 + r.intn(2); k > 0; k-- {
+				d.Body = append(d.Body, c15Stmt{K: 'c', Target: leaves[r.intn(len(leaves))]})
+			}
+		}
+		names := []byte{'i', 'm'}
+		if r.bool() {
+			names[0], names[1] = names[1], names[0]
+		}
+		if r.chance(30) {
+			d.Body = append(d.Body, c15Stmt{K: 'l', Name: names[0], Mark: g.log(), Called: r.chance(70)})
+			names = names[1:]
+		}
+		if r.chance(20) {
+			d.Body = append(d.Body, c15Stmt{K: 'v', Name: names[0]})
+		}
+		if r.chance(15) {
+			d.Body = append(d.Body, c15Stmt{K: 's'})
+		}
+	}
+	p.Decls = ds
+}
+
+// runsByItself: Go runs this declaration during initialisation (func init(); func main() of package main).
+func (d c15Decl) runsByItself(pkgMain bool) bool {
+	return d.Kind == 'F' && (d.Name == 'i' || d.Name == 'm' && pkgMain)
+}
+
+type c15SD struct {
+	Kind, Name string
+	Marks      []int
+}
+
+// modelDecls flattens the declarations into the model's list: a function literal follows the declaration containing it.
+func (p *c15Pkg) modelDecls() []c15SD {
+	kind := map[byte]string{'F': "DFunc", 'M': "DMethod", 'V': "DVar"}
+	name := map[byte]string{'i': "NInit", 'm': "NMain", 'o': "NOther"}
+	var out []c15SD
+	for _, d := range p.Decls {
+		sd := c15SD{Kind: kind[d.Kind], Name: name[d.Name], Marks: []int{d.Own}}
+		var lits []c15SD
+		for _, st := range d.Body {
+			switch st.K {
+			case 'c':
+				sd.Marks = append(sd.Marks, p.Decls[st.Target].Own)
+			case 'l':
+				if st.Called {
+					sd.Marks = append(sd.Marks, st.Mark)
+				}
+				lits = append(lits, c15SD{Kind: "DLit", Name: name[st.Name], Marks: []int{st.Mark}})
+			}
+		}
+		out = append(out, sd)
+		out = append(out, lits...)
+	}
+	return out
+}
+
+func (d c15Decl) ident() string {
+	switch d.Name {
+	case 'i':
+		return "init"
+	case 'm':
+		return "main"
+	}
+	switch {
+	case d.Kind == 'V':
+		return fmt.Sprintf("initFn%d", d.Own)
+	case d.Kind == 'M':
+		return "Init"
+	case d.Alt == 1:
+		return fmt.Sprintf("init%d", d.Own)
+	}
+	return fmt.Sprintf("Init%d", d.Own)
+}
+
+func (d c15Decl) callExpr() string {
+	if d.Kind == 'M' {
+		if d.Ptr {
+			return fmt.Sprintf("(&k%d{}).%s()", d.Own, d.ident())
+		}
+		return fmt.Sprintf("k%d{}.%s()", d.Own, d.ident())
+	}
+	return d.ident() + "()"
+}
+
+func (p *c15Pkg) declText(d c15Decl) string {
+	var b strings.Builder
+	switch d.Kind {
+	case 'V':
+		fmt.Fprintf(&b, "var %s = func() { lg(%d) }\n", d.ident(), d.Own)
+		return b.String()
+	case 'M':
+		star := ""
+		if d.Ptr {
+			star = "*"
+		}
+		fmt.Fprintf(&b, "type k%d struct{}\n\nfunc (k %sk%d) %s() { lg(%d) }\n", d.Own, star, d.Own, d.ident(), d.Own)
+		return b.String()
+	}
+	if len(d.Body) == 0 {
+		fmt.Fprintf(&b, "func %s() { lg(%d) }\n", d.ident(), d.Own)
+		return b.String()
+	}
+	fmt.Fprintf(&b, "func %s() {\n\tlg(%d)\n", d.ident(), d.Own)
+	local := map[byte]string{'i': "init", 'm': "main"}
+	for _, st := range d.Body {
+		switch st.K {
+		case 'c':
+			b.WriteString("\t" + p.Decls[st.Target].callExpr() + "\n")
+		case 'l':
+			fmt.Fprintf(&b, "\t%s := func() { lg(%d) }\n", local[st.Name], st.Mark)
+			if st.Called {
+				fmt.Fprintf(&b, "\t%s()\n", local[st.Name])
+			} else {
+				fmt.Fprintf(&b, "\t_ = %s\n", local[st.Name])
+			}
+		case 'v':
+			fmt.Fprintf(&b, "\t%s := 5\n\t_ = %s\n", local[st.Name], local[st.Name])
+		case 's':
+			b.WriteString("\t_ = struct{ init, main int }{init: 1, main: 2}\n")
+		}
+	}
+	b.WriteString("}\n")
+	return b.String()
 }
 
 // bodyFor generates package bodies until the wanted relation to the side condition holds (bounded).
@@ -724,6 +926,7 @@ func (g *c15Gen) program(mode c15Mode, multiPkg, shufflePkgs bool) *c15Prog {
 	for i := 0; i < nExtra; i++ {
 		p := g.bodyFor(mainMode(), 2+r.intn(4))
 		p.ID = i + 1
+		g.decls(p)
 		// import graph: only packages created before => acyclic
 		for j := 0; j < i; j++ {
 			if r.chance(45) {
@@ -734,6 +937,7 @@ func (g *c15Gen) program(mode c15Mode, multiPkg, shufflePkgs bool) *c15Prog {
 	}
 	m := g.bodyFor(mode, 5+r.intn(8))
 	m.ID, m.Main = 90, true
+	g.decls(m)
 	prog.Entry = 90
 	imported := map[int]bool{}
 	for _, p := range prog.Pkgs {
@@ -822,6 +1026,7 @@ func c15Body(specs []c15Spec, funcs ...c15Func) *c15Pkg {
 
 func c15Single(p *c15Pkg) *c15Prog {
 	p.ID, p.Main = 9, true
+	p.Decls = append(p.Decls, c15Decl{Kind: 'F', Name: 'm', Own: 0})
 	return &c15Prog{Pkgs: []*c15Pkg{p}, Entry: 9}
 }
 
@@ -841,7 +1046,10 @@ func c15Witnesses() []*c15Prog {
 			body.Imports = append(body.Imports, c15Import{Pkg: q, Blank: true})
 		}
 		for _, l := range inits {
-			body.Inits = append(body.Inits, c15InitFn{Log: l})
+			body.Decls = append(body.Decls, c15Decl{Kind: 'F', Name: 'i', Own: l})
+		}
+		if main {
+			body.Decls = append(body.Decls, c15Decl{Kind: 'F', Name: 'm', Own: 0})
 		}
 		return body
 	}
@@ -871,7 +1079,38 @@ func c15Witnesses() []*c15Prog {
 			mk(2, []int{1}, ws2, []int{8}, false),
 			mk(9, []int{1, 2}, wPlain(), []int{9}, true)}, Entry: 9},
 		c15Single(c15Body([]c15Spec{c15V(1, c15RV(2)), c15V(2, c15RV(1)), c15V(3)})),
+		c15WSpecial(),
 	}
+}
+
+// c15WSpecial is w_special of coq/Init/Proofs.v: look-alikes of init and main in every package.
+func c15WSpecial() *c15Prog {
+	p1 := c15Body(nil)
+	p1.ID = 1
+	p1.Decls = []c15Decl{
+		{Kind: 'M', Name: 'i', Own: 21},
+		{Kind: 'F', Name: 'i', Own: 3},
+		{Kind: 'F', Name: 'm', Own: 22},
+		{Kind: 'F', Name: 'i', Own: 4, Body: []c15Stmt{{K: 'c', Target: 2}}},
+	}
+	p2 := c15Body(nil)
+	p2.ID = 2
+	p2.Decls = []c15Decl{{Kind: 'V', Name: 'm', Own: 23}, {Kind: 'F', Name: 'i', Own: 5}}
+	m := c15Body(nil)
+	m.ID, m.Main = 9, true
+	m.Imports = []c15Import{{Pkg: 1, Blank: true}, {Pkg: 2, Blank: true}}
+	m.Decls = []c15Decl{
+		{Kind: 'M', Name: 'i', Own: 11},
+		{Kind: 'M', Name: 'i', Own: 12, Ptr: true},
+		{Kind: 'M', Name: 'm', Own: 13},
+		{Kind: 'M', Name: 'o', Own: 14},
+		{Kind: 'F', Name: 'o', Own: 15},
+		{Kind: 'V', Name: 'o', Own: 17},
+		{Kind: 'F', Name: 'i', Own: 1, Body: []c15Stmt{{K: 'c', Target: 0}, {K: 'c', Target: 1}, {K: 'l', Name: 'i', Mark: 18, Called: true}, {K: 'c', Target: 4}, {K: 'v', Name: 'm'}, {K: 's'}}},
+		{Kind: 'F', Name: 'i', Own: 2, Body: []c15Stmt{{K: 'c', Target: 5}}},
+		{Kind: 'F', Name: 'm', Own: 0, Body: []c15Stmt{{K: 'l', Name: 'm', Mark: 19, Called: true}, {K: 'v', Name: 'i'}, {K: 'c', Target: 2}}},
+	}
+	return &c15Prog{Pkgs: []*c15Pkg{p1, p2, m}, Entry: 9}
 }
 
 // ---------------------------------------------------------------- rendering: Go source
@@ -1035,13 +1274,10 @@ func (p *c15Pkg) files(prefix string) map[string]string {
 			}
 			b.WriteString("\treturn " + strings.Join(append([]string{"0"}, plainTerms...), " + ") + "\n}\n")
 		}
-		for _, in := range p.Inits {
-			if in.File == f {
-				fmt.Fprintf(&b, "func init() { lg(%d) }\n", in.Log)
+		for _, d := range p.Decls {
+			if d.File == f {
+				b.WriteString(p.declText(d))
 			}
-		}
-		if p.Main && f == 0 {
-			b.WriteString("func main() { lg(0) }\n")
 		}
 		out[string(rune('a'+f))+".go"] = b.String()
 	}
@@ -1104,14 +1340,15 @@ func (p *c15Pkg) coq() string {
 	for _, f := range p.Funcs {
 		funcs = append(funcs, fmt.Sprintf("FN %d %s", f.ID, c15CoqRefs(f.Refs)))
 	}
-	var imps, inits []int
+	var imps []int
 	for _, im := range p.Imports {
 		imps = append(imps, im.Pkg)
 	}
-	for _, in := range p.Inits {
-		inits = append(inits, in.Log)
+	var decls []string
+	for _, d := range p.modelDecls() {
+		decls = append(decls, fmt.Sprintf("SD %s %s %s", d.Kind, d.Name, c15CoqIDs(d.Marks)))
 	}
-	return fmt.Sprintf("PK %d %s (BD %s %s) %s %s", p.ID, c15CoqIDs(imps), coqList(specs), coqList(funcs), c15CoqIDs(inits), coqBool(p.Main))
+	return fmt.Sprintf("PK %d %s (BD %s %s) %s %s", p.ID, c15CoqIDs(imps), coqList(specs), coqList(funcs), coqList(decls), coqBool(p.Main))
 }
 
 func (g *c15Prog) coq() string {
@@ -1331,6 +1568,26 @@ func runC15(args []string) error {
 		if !c.yaegi.OK {
 			sm.count("yaegi:rejected-or-odd")
 		}
+		seenKinds := map[string]bool{}
+		for _, p := range c.prog.Pkgs {
+			nInit := 0
+			for _, d := range p.modelDecls() {
+				k := "special:" + d.Kind + "/" + d.Name
+				if d.Kind == "DFunc" && d.Name == "NMain" && !p.Main {
+					k += " in a non-main package"
+				}
+				if d.Kind == "DFunc" && d.Name == "NInit" {
+					nInit++
+				}
+				seenKinds[k] = true
+			}
+			if nInit > 1 {
+				seenKinds["special:several init functions in a package"] = true
+			}
+		}
+		for k := range seenKinds {
+			sm.count(k) // number of programs having at least one such declaration
+		}
 		if c.region == "" {
 			for _, p := range c.prog.Pkgs {
 				if p.fixSensitive() {
@@ -1382,7 +1639,7 @@ func runC15(args []string) error {
 	sm.DistinctNontriv = len(distinct)
 	sm.Rule = "seeded random programs: 5-12 package-level var specs in the entry package (2-5 in imported ones) with direct references, references through 1-4 function/method bodies " +
 		"(calls, function values, method values and expressions, recursion), var x, y = f(), var x, y = e1, e2, variables without initialiser, misleading identifiers (shadowing parameters, struct keys), " +
-		"1-3 files, 0-3 init functions, main, 0-3 imported source packages; every initialiser prints a mark; distinct = distinct source text (program name removed); " +
+		"1-3 files, 0-4 init functions per package spread over the files, main, look-alikes of the special names (methods init/main/Init with value and pointer receivers, func Init, func main and var main = func in non-main packages, package variables holding function literals, locals and struct fields named init/main, local function literals named init/main, helpers and methods called from init functions and main), 0-3 imported source packages; every initialiser prints a mark; distinct = distinct source text (program name removed); " +
 		"non-trivial = more than one package, or a package that is not already in dependency order, or that has functions"
 	return sm.write(*out)
 }
